@@ -906,9 +906,23 @@ def run(ctx, only=None):
                    (U[i][0][1] == [0, 1] and U[i][0][0] != "mesh"
                     and len(U[i][0][2]) == 1)]
         else:
-            sub = [i for i in midx if len(U[i][0][1]) <= 1 or
-                   (len(U[i][0][1]) == 2 and (U[i][0][0] != "biv" or len(U[i][0][2]) <= 1))]
-            sub = [i for i in sub if U[i][1] == "plain"]
+            # every plainly built entry of length <= 1; of length 2 the (co)vincular patterns,
+            # the mesh patterns with <= 2 cells and the bivincular patterns with exactly one
+            # adjacent index and one adjacent value
+            def in_sub(e):
+                spec, variant = e
+                if variant != "plain":
+                    return False
+                if len(spec[1]) <= 1:
+                    return True
+                if len(spec[1]) != 2:
+                    return False
+                if spec[0] in ("vinc", "covinc"):
+                    return True
+                if spec[0] == "mesh":
+                    return len(spec[2]) <= 2
+                return len(spec[2]) == 1 and len(spec[3]) == 1
+            sub = [i for i in midx if in_sub(U[i])]
         per = max(1, len(sub) // 64)
         shards = [(quick, sub, lo, min(len(sub), lo + per)) for lo in range(0, len(sub), per)]
         ctx.pmap(shard_sorted3, shards)
@@ -932,24 +946,36 @@ def run(ctx, only=None):
                                    % (n, n, len(rotations(range(10), 6)))
         ctx.section("perm_order", evaluations=ctx.evals - e0)
     if want("history"):
-        cold, warm = (4, 3) if quick else (5, 4)
+        # depth (operations) from the fresh state / after all three objects were hashed once
+        depths = [(4, 3) if quick else (5, 4)] * len(CONFIGS)
         warm_prefix = (("h", 0), ("h", 1), ("h", 2))
         shards = []
         for ci in range(len(CONFIGS)):
+            cold, warm = depths[ci]
             model = HashHistory(CONFIGS[ci])
             for op in model.enabled(None, ()):
-                shards.append((ci, (op,), cold - 1))
+                if cold >= 5:
+                    shards.append((ci, (op,), 0))
+                    for op2 in model.enabled(None, (op,)):
+                        shards.append((ci, (op, op2), cold - 2))
+                else:
+                    shards.append((ci, (op,), cold - 1))
             for op in model.enabled(None, warm_prefix):
                 shards.append((ci, warm_prefix + (op,), warm - 1))
         res = ctx.pmap(shard_history, shards)
         ctx.states = sum(r[0] for r in res)
         ctx.transitions = sum(r[1] for r in res) + len(shards)
         ctx.traces = ctx.transitions
-        ctx.bounds["history"] = {"configs": [c["name"] for c in CONFIGS], "menu": len(HashHistory(CONFIGS[0]).menu),
-                                 "depth_from_fresh": cold,
-                                 "depth_after_all_three_hashed": warm,
+        ctx.bounds["history"] = {"configs": [c["name"] for c in CONFIGS],
+                                 "menu": len(HashHistory(CONFIGS[0]).menu),
+                                 "depth_from_fresh_per_config": [d[0] for d in depths],
+                                 "depth_after_all_three_hashed_per_config": [d[1] for d in depths],
                                  "merging": "none (allocator state is not observable)"}
         ctx.section("history", states=ctx.states, transitions=ctx.transitions)
+
+
+    import json
+    ctx.viols.sort(key=lambda v: (v["sig"] is not None, len(json.dumps(v["case"]))))
 
 
 # --------------------------------------------------------------------------------------------
